@@ -5,9 +5,14 @@
    Definitions only.
 
    Outside /repo, hence inputs of the model (oracle facts):
-     - oras registry.ParseReference / ValidateReferenceAsDigest  -> [refclass]
-     - what Repository.Resolve answers (error / the descriptor, and whether its
-       digest equals the digest of the reference)               -> [i_rerr], [RDigSame|RDigDiff]
+     - oras registry.ParseReference / ValidateReferenceAsDigest  -> [pref] (invalid / no
+       tag or digest / tag / digest reference carrying ref.Reference)
+     - what Repository.Resolve answers (error / the descriptor; the string of its
+       digest)                                                   -> [i_rerr], [classify]
+       The comparison of the two digest strings (the pin) is notation.go's own
+       statement and is modelled: [classify] computes the class [i_ref] from the
+       parsed reference and the resolved digest string; the harness hands over the
+       two strings, not the class.
      - what Repository.ListSignatures does: it hands consecutive pages of the
        listing to the callback, in order, stops at the first error the
        callback returns and returns it; after the last page it returns its own
@@ -33,6 +38,26 @@ Inductive refclass :=
 | RTag
 | RDigSame     (* digest reference, the repository resolves it to the same digest *)
 | RDigDiff.    (* digest reference, the repository resolves it to another digest *)
+
+(* ArtifactReference as oras registry.ParseReference / ValidateReferenceAsDigest
+   report it (oracle); a digest reference carries ref.Reference *)
+Inductive pref :=
+| PInvalid                 (* ParseReference fails *)
+| PNone                    (* ref.Reference == "" *)
+| PTag                     (* ref.ValidateReferenceAsDigest() != nil *)
+| PDigest (dg : string).   (* a digest reference, dg = ref.Reference *)
+
+(* notation.go:
+     if ref.ValidateReferenceAsDigest() != nil { (tag) }
+     else if ref.Reference != artifactDescriptor.Digest.String() { return mismatch }
+   [resolved] = artifactDescriptor.Digest.String() *)
+Definition classify (p : pref) (resolved : string) : refclass :=
+  match p with
+  | PInvalid => RInvalid
+  | PNone => RNone
+  | PTag => RTag
+  | PDigest dg => if String.eqb dg resolved then RDigSame else RDigDiff
+  end.
 
 (* calls, in the order they are made; a signature is identified by its position
    in the listing (the harness recovers it from the descriptor / blob passed) *)
@@ -305,11 +330,60 @@ Definition spec_ok (i : input) (o : obs) : bool :=
         end
     end.
 
+(* ---------- the callback under a repository that does not honour its contract ----------
+   The closure handed to ListSignatures keeps its counter between invocations. A
+   repository that ignores the error the callback returns, repeats pages or
+   delivers them out of order is a sequence of invocations (pos, page) — [pos] the
+   position in the listing of the first element of [page] — whose results are
+   dropped. What the closure then does (the calls it makes) is [drive]; the
+   return value of Verify depends on what such a repository returns and is not
+   modelled. *)
+Fixpoint drive (max : Z) (s : st) (calls : list (nat * list sigk)) : st :=
+  match calls with
+  | [] => s
+  | (pos, page) :: r => drive max (fst (page_loop max pos s page)) r
+  end.
+
+Record dinput := mk_dinput {
+  d_max : Z;                            (* MaxSignatureAttempts, > 0 *)
+  d_plain : bool;                       (* the verifier has no SkipVerify (else it answers: do not skip) *)
+  d_calls : list (nat * list sigk) }.   (* the invocations of the callback *)
+
+(* the call log of Verify (tag reference, Resolve succeeds) *)
+Definition dmodel (d : dinput) : list ev :=
+  s_log (drive (d_max d) (mk_st 0 [] None ((if d_plain d then [] else [ES]) ++ [ER; EL])) (d_calls d)).
+
+(* oracle on the observed log: never more than N fetches; every verification is of the
+   signature fetched by the call right before it *)
+Fixpoint verify_follows_fetch (prev : option nat) (log : list ev) : bool :=
+  match log with
+  | [] => true
+  | EV k :: r => match prev with Some j => Nat.eqb j k | None => false end && verify_follows_fetch None r
+  | EF k :: r => verify_follows_fetch (Some k) r
+  | _ :: r => verify_follows_fetch None r
+  end.
+
+Definition count_fetches (log : list ev) : nat :=
+  List.length (filter (fun e => match e with EF _ => true | _ => false end) log).
+
+Definition dspec_ok (d : dinput) (log : list ev) : bool :=
+  (Z.of_nat (count_fetches log) <=? Z.max 0 (d_max d))%Z && verify_follows_fetch None log.
+
 (* ---------- cases ---------- *)
-Record case := mk_case { c_id : N; c_in : input; c_obs : obs }.
+Inductive case :=
+| mk_case (id : N) (i : input) (o : obs)            (* a conforming repository *)
+| mk_dcase (id : N) (d : dinput) (log : list ev).   (* a repository that ignores the callback's errors *)
+
+Definition c_id (c : case) : N := match c with mk_case id _ _ | mk_dcase id _ _ => id end.
 
 Definition run (cs : list case) : list (N * N * N) :=
   run_cases c_id
-    (fun c => obs_eqb (model (c_in c)) (c_obs c))
-    (fun c => negb (wf (c_in c)) || spec_ok (c_in c) (c_obs c))
+    (fun c => match c with
+              | mk_case _ i o => obs_eqb (model i) o
+              | mk_dcase _ d log => list_eqb ev_eqb (dmodel d) log
+              end)
+    (fun c => match c with
+              | mk_case _ i o => negb (wf i) || spec_ok i o
+              | mk_dcase _ d log => dspec_ok d log
+              end)
     (fun _ => 0%N) cs.
